@@ -39,6 +39,7 @@ ASSUMPTIONS = [
     "within one search all successes have the same arity (scalars, or m-tuples)",
     "metadata values are ints, floats or strings that pandas' default NA parser does not read as missing and that do not parse as numbers",
     "metadata keys returned by the run-function differ from timestamp_submit / timestamp_gather",
+    "multi-objective tables (rewritten by pandas): no INTEGER objective beyond 2^53 (pandas reads such a text one ulp off, which can flip a Pareto tie)",
 ]
 RULE = ("output sequences of length <= 8 (+ overshoot of the batch) x all six return forms x metadata key sets varying per job x "
         "single / multi(2,3) objective x workers 1-4 x 1-2 search() calls; structured patterns: failure first, all failed, first call all failed, "
@@ -696,13 +697,22 @@ def gen_out(rng, multi, fail, style):
             obj = {"t": t, "aslist": rng.random() < 0.4}
         else:
             obj = {"s": rng.choice(LABELS)} if r < 0.7 else {"n": rng.choice(["nan", "inf", "-inf"])}
+    elif multi and isinstance(style, list):
+        # "absorb": one objective of huge magnitude shared by all rows, the others negligible against it (the sums of the
+        # coordinates round to the same float; for 1.5e308 they overflow): dominated and dominating rows in both orders
+        big, small = style
+        obj = {"t": [big] + [rng.choice(small) for _ in range(multi - 1)], "aslist": rng.random() < 0.4}
+        if rng.random() < 0.5:
+            obj["t"] = obj["t"][1:] + obj["t"][:1]
     elif multi:
         obj = {"t": [gen_number(rng, "edge_multi" if style == "edge" else style) for _ in range(multi)], "aslist": rng.random() < 0.4}
     else:
         obj = {"n": gen_number(rng, style)}
     form = rng.choice(["plain", "plain", "dict", "dictmd", "prof", "profdict", "profdictmd"])
     spec = dict(form=form, obj=obj, pytype=rng.choice(["float", "float", "int", "npfloat", "npint"]))
-    if (fail or style in ("grid", "int")) and rng.random() < 0.35:
+    if isinstance(style, list):
+        spec["pytype"] = rng.choice(["float", "npfloat"])   # (as integers, values beyond 2^53 drift by an ulp through pandas)
+    if (fail or (isinstance(style, str) and style in ("grid", "int"))) and rng.random() < 0.35:
         spec["pytype"] = rng.choice(narrow)   # grid / int values are exact in float16; a non-finite value exists in every width
     if not fail and not multi and rng.random() < 0.06:
         # a python bool is a Number: falsy / truthy objective through the scalar forms (float(output))
@@ -731,6 +741,9 @@ def gen_case(rng, pattern=None, small=False):
     pattern = pattern or rng.choice(["mixed", "mixed", "mixed", "fail_first", "all_fail", "no_fail", "call1_fail", "late_success"])
     pf = rng.choice([0.2, 0.5, 0.8])
     style = rng.choice(["grid", "grid", "int", "float", "edge"])
+    if multi and rng.random() < 0.3:
+        big = rng.choice([3e17, -3e17, 1e17, 2.0 ** 60, 1.5e308, -1.5e308])
+        style = [big, [1e308, 9e307, 8e307] if abs(big) > 1e300 else [0.5, 0.75, 0.9, 1.0, -1.0]]
     outs = []
     for i in range(n):
         if pattern == "mixed":
